@@ -206,6 +206,9 @@ def run_frontend(fe, tab, config_dict):
                 if k in cols:
                     coords[k] = ("time", cols[k])
             ds = xr.Dataset(data, coords=coords)
+        elif variant == "notime":
+            # the measured variables sit on a dimension called "time" that has no coordinate / variable at all
+            ds = xr.Dataset({k: (("time",), a) for k, a in cols.items()})
         elif variant == "var":
             ds = xr.Dataset({k: ("obs", a) for k, a in cols.items()} | {"time": ("obs", times)})
         else:
